@@ -117,12 +117,12 @@ func (q *Queue) Add(elem *queue.Elem) (err error) {
 		drop = true
 
 		// drop expired inflight message
-		if v := q.l.Front(); v != q.current &&
-			v != nil &&
-			queue.ElemExpiry(now, v.Value.(*queue.Elem)) {
-			dropElem = v
-			dropErr = queue.ErrDropExpiredInflight
-			return
+		for v := q.l.Front(); v != nil && v != q.current; v = v.Next() {
+			if queue.ElemExpiry(now, v.Value.(*queue.Elem)) {
+				dropElem = v
+				dropErr = queue.ErrDropExpiredInflight
+				return
+			}
 		}
 
 		// drop the current elem if there is no more non-inflight messages.
